@@ -93,7 +93,9 @@ SPEC = {
             ['HOM', 'Home', [['home_brg', 'void', BRIDGE_PARAMS]]]],
     # user-defined types: name, the type it is based on (a core type or another user-defined type)
     # structured data types: name, members (name, type)
-    'structs': [['Point_t', [['x', 'real'], ['y', 'real'], ['tag', 'string'], ['n', 'integer'], ['ok', 'boolean']]]],
+    # (a member NAMED length, not an integer: `p.length` on a structure is that member, not an array length)
+    'structs': [['Point_t', [['x', 'real'], ['y', 'real'], ['tag', 'string'], ['n', 'integer'], ['ok', 'boolean'],
+                             ['length', 'real']]]],
     'udts': [['Age_t', 'integer'], ['Years_t', 'Age_t'], ['Name_t', 'string'], ['Ratio_t', 'real'], ['Flag_t', 'boolean']],
     # state machine events per class: instance state machine (SM_ISM) and class / assigner state machine (SM_ASM):
     # (derived label, meaning)
